@@ -111,36 +111,57 @@ def observe(case, seed):
     except Exception as e:  # noqa
         return {"parse": ["exc", type(e).__name__], "items": []}
     items = []
-    gl = sorted(g.genes)
+
+    def guarded(what, fn):
+        """an exception while observing a rule that parsed is itself an observation"""
+        try:
+            fn()
+        except Exception as e:  # noqa
+            items.append(["raised", what, type(e).__name__])
+    try:
+        gl = sorted(g.genes)
+    except Exception as e:  # noqa
+        return {"parse": ["tree", tree], "items": [["raised", "genes", type(e).__name__]]}
     items.append(["genes", gl])
-    items.append(["to_string", g.to_string()])
-    items.append(["str", str(g)])
-    for ko in subsets(gl, rng, 64):
+    guarded("to_string", lambda: items.append(["to_string", g.to_string()]))
+    guarded("str", lambda: items.append(["str", str(g)]))
+
+    def ev(ko):
         items.append(["eval", ko, bool(g.eval(set(ko)))])
+    for ko in subsets(gl, rng, 64):
+        guarded("eval", lambda: ev(ko))
     if gl:
         extra = "zz_not_in_rule"
         for ko in ([extra], [gl[0], extra], gl + [extra]):
-            items.append(["eval", ko, bool(g.eval(set(ko)))])
+            guarded("eval", lambda: ev(ko))
 
-    def same(kind, h):
-        items.append(["same", kind, dump(h.body), sorted(h.genes), bool(g == h)])
-    same(0, GPR.from_string(g.to_string()))
-    same(1, g.copy())
-    same(2, pickle.loads(pickle.dumps(g)))
-    r = Reaction("R")
-    r.gene_reaction_rule = text
-    same(3, pickle.loads(pickle.dumps(r)).gpr)
+    def same(kind, mk):
+        def run():
+            h = mk()
+            items.append(["same", kind, dump(h.body), sorted(h.genes), bool(g == h)])
+        guarded("same%d" % kind, run)
+
+    def via_reaction():
+        r = Reaction("R")
+        r.gene_reaction_rule = text
+        return pickle.loads(pickle.dumps(r)).gpr
+    same(0, lambda: GPR.from_string(g.to_string()))
+    same(1, lambda: g.copy())
+    same(2, lambda: pickle.loads(pickle.dumps(g)))
+    same(3, via_reaction)
     if case.get("sym", True):
-        same(4, GPR.from_symbolic(g.as_symbolic()))
-    for ko in case.get("Ks", []):
+        same(4, lambda: GPR.from_symbolic(g.as_symbolic()))
+
+    def rem(ko):
         h = g.copy()
         _GeneRemover(set(ko)).visit(h)
         if not hasattr(h, "body"):
             h.body = None              # what remove_genes does next
         items.append(["remove", ko, dump(h.body), sorted(h.genes)])
-    for rr, ko in case.get("KMs", []):
-        if not ko or not set(ko) <= set(gl):
-            continue
+    for ko in case.get("Ks", []):
+        guarded("remove", lambda: rem(ko))
+
+    def remM(rr, ko):
         m = Model("m")
         rx = Reaction("R1")
         m.add_reactions([rx])
@@ -149,9 +170,16 @@ def observe(case, seed):
         kept = rx in m.reactions
         items.append(["removeM", bool(rr), ko, kept, dump(rx.gpr.body) if kept else None,
                       sorted(x.id for x in rx.genes) if kept else [], sorted(x.id for x in m.genes)])
-    for o in case.get("others", []):
+    for rr, ko in case.get("KMs", []):
+        if not ko or not set(ko) <= set(gl):
+            continue
+        guarded("removeM", lambda: remM(rr, ko))
+
+    def eq(o):
         h = GPR.from_string(canon_print(o))
         items.append(["eq", dump(h.body), bool(g == h)])
+    for o in case.get("others", []):
+        guarded("eq", lambda: eq(o))
     return {"parse": ["tree", tree], "items": items}
 
 
@@ -174,6 +202,8 @@ def item_term(it):
                  ids_term(it[6]))
     if k == "eq":
         return C("IEq", rule_term(it[1]), bool(it[2]))
+    if k == "raised":
+        return C("IRaised")
     raise ValueError(k)
 
 
@@ -403,7 +433,8 @@ CODES = {1: "model and implementation differ",
          4: "a round trip (text / copy / pickle / symbolic) changed the rule or does not compare equal",
          5: "rule after removing genes is not equivalent to the old rule with those genes absent",
          6: "genes reported after removal are not the occurring genes, or a removed gene is still in the model",
-         7: "rules compare equal but are not logically equivalent"}
+         7: "rules compare equal but are not logically equivalent",
+         8: "an operation on a parsed rule raised an exception"}
 
 
 def evaluate(cases, seed):
@@ -479,6 +510,15 @@ def main(argv=None):
     warnings.simplefilter("ignore")
     rep = K.Reporter(PROP, args.tier, args.seed)
     info, broken = K.standard_prelude(PROP, rep, extra_targets=["theories/GPR/Check.vo"])
+    gen_file = os.path.join(K.THEORIES, "Gen", "GprTables.v")
+    fallback_tables = False
+    if not os.path.exists(gen_file):
+        # The translator no longer recognises gene.py (already recorded in `broken`).  For the
+        # failing-input search only, evaluate the model with the last committed tables.
+        import shutil
+        shutil.copy(os.path.join(K.VERIF, "harness", "snapshots", "GprTables.v"), gen_file)
+        K.build(["theories/GPR/Check.vo"])
+        fallback_tables = True
     rng = random.Random(args.seed)
     n_ex = 0
     if args.replay:
@@ -543,6 +583,10 @@ def main(argv=None):
                   "theorem": "coq/theories/Properties/C08.v"}
         rep.violation(signature(small, code, item_kind), replay)
 
+    if fallback_tables:
+        for ext in (".v", ".vo", ".vok", ".vos", ".glob"):
+            if os.path.exists(gen_file[:-2] + ext):
+                os.remove(gen_file[:-2] + ext)
     if broken and rep.violations == 0 and not rep.known:
         rep.violation({"broken": True}, {"broken_obligations": broken,
                       "note": "proof obligation or correspondence machinery no longer checks; no failing input found"},
